@@ -1,6 +1,7 @@
 package sim
 
 import (
+	"context"
 	"sync"
 
 	"github.com/google/uuid"
@@ -128,6 +129,16 @@ func (l *lockedStore) RetrieveAccounts(walletID uuid.UUID) <-chan []byte {
 	l.mu.Lock()
 	defer l.mu.Unlock()
 	return drain(l.inner.RetrieveAccounts(walletID))
+}
+func (l *lockedStore) StoreBatch(ctx context.Context, walletID uuid.UUID, walletName string, data []byte) error {
+	l.mu.Lock()
+	defer l.mu.Unlock()
+	return l.inner.(e2wtypes.BatchStorer).StoreBatch(ctx, walletID, walletName, data)
+}
+func (l *lockedStore) RetrieveBatch(ctx context.Context, walletID uuid.UUID) ([]byte, error) {
+	l.mu.Lock()
+	defer l.mu.Unlock()
+	return l.inner.(e2wtypes.BatchRetriever).RetrieveBatch(ctx, walletID)
 }
 func (l *lockedStore) RetrieveAccount(walletID uuid.UUID, accountID uuid.UUID) ([]byte, error) {
 	l.mu.Lock()
